@@ -15,7 +15,8 @@ Spec::
   {"mode": "server"|"client", "init": bool, "ops": [op, ...], "cuts": [[sel, a, b], ...]}
   op = ["msg", kind, len_idx, seed, [split, ...], [[gap, ikind, pl_idx, seed], ...], [k0, k1, k2, k3]]
            peer -> codec data message; kind "t"/"b"; split into len(splits)+1 frames at n*split//1000;
-           ikind in ping/pong/send is placed after fragment ``gap % (nfrags-1)`` (dropped when unfragmented)
+           ikind in ping/pong/send/pclose/lclose is placed after fragment ``gap % (nfrags-1)`` (dropped when
+           unfragmented)
      | ["ping", pl_idx, seed, key] | ["pong", pl_idx, seed, key]      peer -> codec control frame
      | ["pclose", code_idx, key]                                     peer -> codec close frame
      | ["send", kind, len_idx, seed]                                 application writes a message to the codec
@@ -30,7 +31,14 @@ and one byte at a time. Application side operations keep their place between the
 soon as every byte that precedes them has been delivered (so a cut may move them behind frames that arrived in
 the same read; the expectation is computed from that effective order).
 """
+import json
+import os
+import re
+import shutil
 import struct
+import subprocess
+import sys
+import tempfile
 
 from hypothesis import strategies as st
 
@@ -202,7 +210,7 @@ class RefDecoder:
 
 # --------------------------------------------------------------------------- payloads
 LENS = [0, 1, 5, 125, 126, 127, 300, 4096, 4097, 65535, 65536, 70000]
-LEN_IDX = [0, 1, 1, 2, 2, 2, 3, 3, 3, 4, 4, 4, 5, 5, 6, 7, 8, 9, 10, 11]
+LEN_IDX = [0, 1, 2, 2, 3, 3, 4, 4, 5, 5, 6, 7, 8, 9, 9, 10, 10, 11, 3, 4]
 CTL_LENS = [0, 1, 4, 124, 125]
 CLOSE_PAYLOADS = [b'', struct.pack('!H', 1000), struct.pack('!H', 1001) + b'going away', struct.pack('!H', 1000) + b'x' * 123]
 KEYS = [[0, 0, 0, 0], [255, 255, 255, 255], [1, 2, 3, 4], [0x80, 0, 0x81, 0x7f], [0, 0, 0, 1]]
@@ -293,6 +301,10 @@ def build_timeline(spec):
                 for ik, pi, sd in gaps.get(i, ()):
                     if ik == 'send':
                         items.append(Item('out', 'send', 't', text_payload(CTL_LENS[pi % len(CTL_LENS)], sd)))
+                    elif ik == 'lclose':
+                        items.append(Item('out', 'lclose'))
+                    elif ik == 'pclose':
+                        inframe('close', OP_CLOSE, CLOSE_PAYLOADS[pi % len(CLOSE_PAYLOADS)], True, key, infrag=True)
                     else:
                         pl = bin_payload(CTL_LENS[pi % len(CTL_LENS)], sd)
                         inframe(ik, OP_PING if ik == 'ping' else OP_PONG, pl, True, key, data=pl, infrag=True)
@@ -389,11 +401,6 @@ class _Transport(BaseComponent):
     def _c(self, *args):
         self.rec.transport_closes += 1
 
-    @handler('read', priority=-5)
-    def _r(self, *args):
-        # a raw read the codec did not consume (it stops the event when it handles it)
-        self.rec.unclaimed += 1
-
 
 class _App(BaseComponent):
     channel = 'ws'
@@ -430,7 +437,6 @@ class _Rec:
         self.reads = []      # (step, sock name, message)
         self.exceptions = []
         self.transport_closes = 0
-        self.unclaimed = 0
         self.malformed = []
 
     def wrote(self, args):
@@ -553,14 +559,30 @@ def judge(spec, items, order, steps, rec, stuck, raised):
             break
 
     # ---- codec -> peer data messages
-    sends = [(it, si) for it, si in order if it.dir == 'out' and it.what == 'send']
-    must_send = [(it.kind, it.data) for it, si in sends if close_out_step is None or si < close_out_step]
+    # written before any close frame went either way: must arrive; written after the codec sent its close
+    # frame: must not; written after the peer's close frame arrived but before the codec sent its own
+    # (the pinned codec answers at once, so this window is empty there): either is acceptable.
+    peer_close = None
+    for idx, (it, si) in enumerate(order):
+        if it.dir == 'in' and it.what == 'close':
+            peer_close = idx
+            break
+    must_send, may_send = [], []
+    for idx, (it, si) in enumerate(order):
+        if it.dir != 'out' or it.what != 'send':
+            continue
+        if close_out_step is not None and si >= close_out_step:
+            continue
+        if peer_close is not None and idx > peer_close:
+            may_send.append((it.kind, it.data))
+        else:
+            must_send.append((it.kind, it.data))
     got_sent = [(ev[1], ev[2]) for ev in wrote if ev[0] == 'msg']
-    if got_sent != must_send:
+    if got_sent[:len(must_send)] != must_send or not _subsequence(got_sent[len(must_send):], may_send):
         late = [ev for ev in wrote if ev[0] == 'msg' and close_out_step is not None and ev[-1] > close_out_step]
         if late:
             return 'sent-after-close', 'data message written after the codec had sent a close frame (%s, %d bytes)' % (late[0][1], len(late[0][2]))
-        return 'write-roundtrip', 'messages written differ: ' + _diff(must_send, got_sent)
+        return 'write-roundtrip', 'messages written differ: ' + _diff(must_send + may_send, got_sent)
     seen_close = False
     for ev in wrote:
         if ev[0] == 'close':
@@ -569,11 +591,6 @@ def judge(spec, items, order, steps, rec, stuck, raised):
             return 'sent-after-close', 'data frame follows a close frame in the written stream'
 
     # ---- peer -> codec data messages
-    peer_close = None
-    for idx, (it, si) in enumerate(order):
-        if it.dir == 'in' and it.what == 'close':
-            peer_close = idx
-            break
     required, optional = [], []
     req_pings, opt_pings = [], []
     for idx, (it, si) in enumerate(order):
@@ -611,14 +628,8 @@ def judge(spec, items, order, steps, rec, stuck, raised):
     pongs = [ev[1] for ev in wrote if ev[0] == 'pong']
     if pongs[:len(req_pings)] != req_pings:
         return 'ping-pong', 'pongs written %s, pings received %s' % (_short(pongs), _short(req_pings))
-    rest = pongs[len(req_pings):]
-    j = 0
-    for p in rest:
-        while j < len(opt_pings) and opt_pings[j] != p:
-            j += 1
-        if j == len(opt_pings):
-            return 'ping-pong', 'pong without a ping: pongs %s, pings %s (+%s after close)' % (_short(pongs), _short(req_pings), _short(opt_pings))
-        j += 1
+    if not _subsequence(pongs[len(req_pings):], opt_pings):
+        return 'ping-pong', 'pong without a ping: pongs %s, pings %s (+%s after close)' % (_short(pongs), _short(req_pings), _short(opt_pings))
     if any(ev[0] == 'ping' for ev in wrote):
         return 'ping-pong', 'codec sent a ping of its own'
 
@@ -638,6 +649,17 @@ def judge(spec, items, order, steps, rec, stuck, raised):
         if [(e[1], e[2]) for e in d2.events] != [('t', b'w' + o) for o in others]:
             return 'other-connection', 'second connection: written messages differ'
     return None
+
+
+def _subsequence(got, allowed):
+    j = 0
+    for g in got:
+        while j < len(allowed) and allowed[j] != g:
+            j += 1
+        if j == len(allowed):
+            return False
+        j += 1
+    return True
 
 
 def _short(l):
@@ -688,7 +710,8 @@ class C17(Prop):
         'relative order of pongs and data frames in the written stream is not asserted',
         'the peer is conforming: control payloads <= 125 bytes, valid UTF-8 text, client frames masked, server frames unmasked',
     )
-    budget = {'quick': (260, 4), 'thorough': (5000, 16)}
+    fast = False  # the atheris campaign skips the per-byte single cuts (coverage feedback picks the cuts)
+    budget = {'quick': (500, 4), 'thorough': (4000, 16)}
 
     def setup(self):
         driver.quiet_process()
@@ -699,17 +722,26 @@ class C17(Prop):
         li = st.integers(0, len(LEN_IDX) - 1)
         seed = st.integers(0, 255)
         pl = st.integers(0, len(CTL_LENS) - 1)
-        inter = st.lists(st.tuples(st.integers(0, 2), st.sampled_from(['ping', 'ping', 'pong', 'send']), pl, seed).map(list), max_size=2)
-        msg = st.tuples(st.just('msg'), st.sampled_from(['t', 'b']), li, seed,
-                        st.lists(st.integers(0, 1000), max_size=3), inter, key).map(list)
-        op = st.one_of(
-            msg, msg, msg,
-            st.tuples(st.sampled_from(['ping', 'pong', 'ping']), pl, seed, key).map(list),
-            st.tuples(st.just('send'), st.sampled_from(['t', 'b']), li, seed).map(list),
-            st.tuples(st.just('pclose'), st.integers(0, len(CLOSE_PAYLOADS) - 1), key).map(list),
-            st.just(['lclose']),
-            st.tuples(st.just('other'), st.integers(0, 9)).map(list),
-        )
+        inter = st.lists(st.tuples(st.integers(0, 2), st.sampled_from(['ping', 'ping', 'ping', 'pong', 'pong', 'send', 'send', 'pclose', 'lclose']), pl, seed).map(list), max_size=2)
+        kinds = ['msg'] * 8 + ['ping', 'ping', 'pong', 'send', 'send', 'send', 'pclose', 'lclose', 'other']
+
+        def mk(t):
+            k, tb, l, sd, splits, it, ky, p = t
+            if k == 'msg':
+                return ['msg', tb, l, sd, splits, it, ky]
+            if k in ('ping', 'pong'):
+                return [k, p, sd, ky]
+            if k == 'send':
+                return ['send', tb, l, sd]
+            if k == 'pclose':
+                return ['pclose', p, ky]
+            if k == 'other':
+                return ['other', sd % 10]
+            return ['lclose']
+
+        # one flat tuple per op (all fields drawn, the kind picks what is used): weighted kinds, shrinks well
+        op = st.tuples(st.sampled_from(kinds), st.sampled_from(['t', 'b']), li, seed,
+                       st.one_of(st.just([]), st.lists(st.integers(0, 1000), max_size=3)), inter, key, pl).map(mk)
         cut = st.tuples(st.sampled_from([0, 0, 0, 1]), st.integers(0, 15), st.integers(0, 65535)).map(list)
         return st.fixed_dictionaries({
             'mode': st.sampled_from(['server', 'client']),
@@ -717,6 +749,97 @@ class C17(Prop):
             'ops': st.lists(op, min_size=1, max_size=12 if big else 8),
             'cuts': st.lists(cut, min_size=1, max_size=6),
         })
+
+    # ------------------------------------------------------------------ thorough: atheris campaign
+    FUZZ_PROCS = 16
+    FUZZ_RUNS = 12000
+
+    def enumerate(self, tier):
+        """The finite grid (see grid()). In the thorough tier the coverage-guided campaign
+        (vlib/c17_helpers.py, oracle inside the target) runs here as well: a failing spec it finds is handed to
+        the runner together with the grid and executed like an enumerated case (-> VIOLATION + replay file);
+        a clean campaign adds nothing; its statistics are appended to ``rule`` so that they appear in the
+        evidence file (the evidence key exhaustive_subdomain describes the grid only)."""
+        grid = self.grid()
+        if tier != 'thorough' or os.environ.get('C17_NO_FUZZ'):
+            return grid
+        return grid + self.campaign()
+
+    def grid(self):
+        """finite sub-domain run exhaustively in every tier: every payload length of LENS x text/binary x
+        {server, client, client with the first read through the constructor} x {one frame, two fragments with a
+        ping in between, three fragments}; the same length/type is also written by the application; each with
+        all deliveries of execute() (all single cuts when the stream is short)."""
+        out = []
+        for mode, init in (('server', False), ('client', False), ('client', True)):
+            for kind in 'tb':
+                for n in range(len(LENS)):
+                    li = LEN_IDX.index(n)
+                    for shape in range(3):
+                        splits = [[], [400], [1, 999]][shape]
+                        inter = [[0, 'ping', 1 + n % 4, n]] if shape == 1 else []
+                        out.append({'mode': mode, 'init': init, 'cuts': [[0, 0, 1], [0, 1, 3]],
+                                    'ops': [['msg', kind, li, n + shape, splits, inter, [n, 255 - n, 0x80, shape]],
+                                            ['send', kind, li, n + 7]]})
+        return out
+
+    def campaign(self):
+        from vlib import runner
+        verif = runner.VERIF
+        if not os.path.isdir(os.path.join(verif, '.deps', 'atheris')):
+            self.rule += ' | atheris campaign skipped: atheris not installed in .deps'
+            return []
+        seed = int(os.environ.get('VERIF_SEED', '1') or 1)
+        top = tempfile.mkdtemp(prefix='c17-fuzz-')
+        env = dict(os.environ, PYTHONHASHSEED='0',
+                   PYTHONPATH=os.pathsep.join([runner.REPO, verif, os.path.join(verif, '.deps')]))
+        procs = []
+        failing, notes, covs, runs = [], [], [], 0
+        try:
+            for k in range(self.FUZZ_PROCS):
+                d = os.path.join(top, 'p%d' % k)
+                os.makedirs(d)
+                log = open(os.path.join(d, 'log'), 'w')
+                procs.append((d, log, subprocess.Popen(
+                    [sys.executable, '-m', 'vlib.c17_helpers', '--out', d, '--corpus', os.path.join(verif, 'corpus', 'C17'),
+                     '-runs=%d' % self.FUZZ_RUNS, '-seed=%d' % (seed * 1000 + k)],
+                    cwd=verif, env=env, stdout=subprocess.DEVNULL, stderr=log)))
+            for d, log, p in procs:
+                try:
+                    rc = p.wait(timeout=3600)
+                except subprocess.TimeoutExpired:
+                    p.kill()
+                    p.wait()
+                    rc = None
+                log.close()
+                text = open(os.path.join(d, 'log'), errors='replace').read()
+                if rc == 1 and os.path.exists(os.path.join(d, 'C17-fuzz.json')):
+                    with open(os.path.join(d, 'C17-fuzz.json')) as f:
+                        failing.append(json.load(f))
+                elif rc == 0:
+                    m = re.findall(r'cov: (\d+)', text)
+                    if m:
+                        covs.append(int(m[-1]))
+                    m = re.search(r'number_of_executed_units: (\d+)', text)
+                    runs += int(m.group(1)) if m else 0
+                else:
+                    notes.append('campaign %s ended rc=%r: %s' % (os.path.basename(d), rc, text[-200:].replace('\n', ' ')))
+        finally:
+            for d, log, p in procs:
+                if p.poll() is None:
+                    p.kill()
+            shutil.rmtree(top, ignore_errors=True)
+        self.rule += (' | thorough tier additionally ran %d atheris campaigns (spec decoded from fuzzer bytes, same oracle, '
+                      'seeds %d..%d): %d executions, edge coverage %s, %d violations%s' % (
+                          self.FUZZ_PROCS, seed * 1000, seed * 1000 + self.FUZZ_PROCS - 1, runs,
+                          ('%d-%d' % (min(covs), max(covs))) if covs else 'n/a', len(failing),
+                          ('; ' + '; '.join(notes)) if notes else ''))
+        seen, out = set(), []
+        for f in failing:
+            if f['clause'] not in seen:
+                seen.add(f['clause'])
+                out.append(f['spec'])
+        return out
 
     # ------------------------------------------------------------------
     def deliveries(self, spec, items, total):
@@ -732,7 +855,7 @@ class C17(Prop):
                 out.append(('gen', gen))
             if total > BUFSIZE:
                 out.append(('bufsize', list(range(BUFSIZE, total, BUFSIZE))))
-            if total <= SHORT:
+            if total <= SHORT and not self.fast:
                 out.append(('bytewise', list(range(1, total))))
                 for c in range(1, total):
                     out.append(('single', [c]))
@@ -747,7 +870,7 @@ class C17(Prop):
         frames = [it for it in items if it.dir == 'in']
         classes = ['mode:' + spec['mode']]
         hdr_cut = False
-        ctl_in_frag = any(it.infrag for it in frames)
+        ctl_in_frag = any(it.infrag and it.what in ('ping', 'pong') for it in frames)
         failure = None
         close_unmasked = False
         with driver.captured_stderr():
